@@ -96,6 +96,43 @@ CHECKS = {
             "(including torn catalog writes, M1, and un-synced catalog content, M2) is a crash point; accepted iff the graph opens and "
             "rules/schemas are those after a prefix of the attempted operations containing every acknowledged one.",
             "trusted: strace, tools/fsreplay.py. " + TB, "7 C16"),
+    "C21": ("proof", "trace validation of returned proof DAGs against ProofTrace!ValidNode over Datalog!Model",
+            "model_checking",
+            "Generated stratified programs (no aggregates) are registered as persistent rules in a real Handler; .why is asked for up to "
+            "5 answer tuples per program; TLC computes the least model and accepts a proof iff the root concludes the tuple, every rule "
+            "node instantiates some clause with a satisfying valuation whose positive body instances are the children's conclusions in "
+            "order, every fact leaf is in the model (edb leaves in the base facts) and every negation leaf's instance is absent.",
+            "Integers only; the logged rule_id text is not trusted (TLC searches clause and valuation itself). " + TB, "7 C21"),
+    "C22": ("proof", "trace validation: ProofTrace!Complete for every answer tuple in the model",
+            "model_checking",
+            "Same records as C21: every answer tuple that is in the least model must get a proof whose reachable nodes contain no "
+            "'truncated' node and no bare 'derived' fact leaf (derivation depths of the generated programs are far below the limit).",
+            TB, "7 C22"),
+    "C23": ("proof", "trace validation of .why_not answers against ProofTrace!WhyNotOK over Datalog!Model",
+            "model_checking",
+            ".why_not for random candidate tuples and for answer tuples: for an underived tuple there is one entry per clause and every "
+            "body-atom / head-unification blocker genuinely holds in the model; for a derived tuple the answer never claims that every "
+            "clause is blocked.",
+            "Comparison and negation blockers are not re-evaluated (their text is not parsed); entries are matched to clauses "
+            "existentially. " + TB, "7 C23"),
+    "C24": ("laws", "trace validation of search results against VecIndexTrace.tla (abstract index kept by the specification)",
+            "model_checking",
+            "Random histories (insert, update, delete, rebuild, save/load, search with k and ef variations) on a real HnswIndex, all four "
+            "metrics, integer coordinates: ids distinct and live, at most k, distances non-decreasing and equal to the metric's (integer "
+            "inequalities at scale 100), and when |live| <= ef exactly min(k, live) results none of which is beaten by a left-out id.",
+            "Distances agree to ~1e-2 (TLC has no reals); dot-product values only ordered. " + TB, "7 C24"),
+    "C25": ("laws", "trace validation of index state observables against VecIndexTrace.tla",
+            "model_checking",
+            "After every call of the same histories: len - tombstones = number of live ids, dimension = vector length, metric and "
+            "parameters unchanged, save + load succeeds and preserves all of it; membership is exercised through C24's complete searches.",
+            TB, "7 C25"),
+    "C26": ("laws", "trace validation against LawsTrace.tla (Lsh memo machine, probe and distance/quantisation laws)",
+            "model_checking",
+            "LSH buckets must be a function of (vector, table, hyperplanes) across cache clear/resize/prewarm/eviction and across three "
+            "concurrent callers racing a cache-clearing thread; probe sequences start at the bucket, are distinct, within n bits, "
+            "Hamming-monotone; distances symmetric (bit-identical), non-negative, zero on identical inputs, cosine within [0,2]; int8 "
+            "quantisation within one step (integer inequalities).",
+            "Concurrent schedules are whatever the OS produces (no forced schedules); float accuracy judged by classes. " + TB, "7 C26"),
     "C27": ("handler-trace", "effect-based trace validation of authorization against Auth.tla (HandlerTrace!Unauthorized / Leaked)",
             "model_checking",
             "Seeded multi-statement programs (about 50 statement templates, comments, continuation lines, .kg use/create/drop, "
@@ -168,8 +205,11 @@ ENGINES.append({"name": "handler-trace", "path": "tools/eng_handler.py",
                 "serves_properties": ["C27", "C28", "C29", "C30", "C32", "C33", "C34", "C35"],
                 "kind_free_text": "scenarios through the real protocol Handler; whole-system state after each request judged by "
                                   "spec/HandlerTrace.tla (Auth, Store, Page, Datalog) and spec/MatrixTrace.tla"})
-ENGINES.append({"name": "laws", "path": "tools/eng_laws.py", "serves_properties": ["C31", "C36"],
-                "kind_free_text": "real comparison matrices / index histories judged by spec/ValuesTrace.tla and spec/IndexTrace.tla"})
+ENGINES.append({"name": "laws", "path": "tools/eng_laws.py", "serves_properties": ["C24", "C25", "C26", "C31", "C36"],
+                "kind_free_text": "real comparison matrices / index and vector-op histories judged by spec/ValuesTrace.tla, "
+                                  "IndexTrace.tla, VecIndexTrace.tla, LawsTrace.tla"})
+ENGINES.append({"name": "proof", "path": "tools/eng_proof.py", "serves_properties": ["C21", "C22", "C23"],
+                "kind_free_text": ".why / .why_not answers of the real Handler judged by spec/ProofTrace.tla over Datalog!Model"})
 ENGINES.append({"name": "store-replay", "path": "tools/eng_store.py", "serves_properties": ["C11", "C12", "C14", "C17"],
                 "kind_free_text": "spec/MC_Store.tla enumerates histories of the abstract store machine; harness replays them on the "
                                   "real StorageEngine; spec/StoreTrace.tla judges every observed step (Store!StepOK)"})
